@@ -1143,6 +1143,11 @@ def run(ctx, replay=None):
         "against np.ma; ownership stream: holder (x | persisted | optimized) -> view (whole | chunk-aligned slice | .blocks | "
         "unaligned index) -> result of one of 12 entry points OVERWRITTEN in place by the caller -> 6 entry points + a follow-on "
         "op on holder, view and x must still return the oracle; "
+        "fusion stream (props_ext/c05_entry_programs): 25 hand-built da.blockwise forms with ONE lazy operand repeated under "
+        "permuted / contracted (concatenate True/False/None) / outer / new_axes / 3-d cyclic index patterns, 23 array-API spellings "
+        "(b op b.T, b @ b.T, tensordot, einsum, where, reversed views, v[:,None]*v[None,:]), map_blocks over two views of one chain, "
+        "c21_fused's multi-site programs, 0-3 elementwise layers below and above, uniform / ragged / single-block axes x 19 entry "
+        "points (the 16 plus x.__array__, store, store(compute=False)) against a whole-array NumPy evaluation + metadata + follow-on; "
         "a case is distinct by (entry point, outcome, result rank, scheduler, set of expression classes)"
     )
     ctx.assumptions = [
@@ -1166,12 +1171,24 @@ def run(ctx, replay=None):
 
             c05_types.replay(ctx, case)
             return
+        if case.get("kind") == "fusion":  # harness/props_ext/c05_entry_programs.py
+            from harness.props_ext import c05_entry_programs
+
+            c05_entry_programs.replay(ctx, case)
+            return
         fn = check_inplace if case.get("kind") == "inplace" else check_case
         for f in fn(ctx, case) or []:
             ctx.fail(f["sig"], case, f["detail"])
         return
 
     correspondence(ctx)
+
+    # FUSION-SENSITIVE programs (one lazy operand repeated under permuted / contracted / broadcast index patterns in hand-built
+    # blockwise calls and their array-API spellings) through every entry point: first, so that the budget cut-off of the
+    # random-program loop below never starves it
+    from harness.props_ext import c05_entry_programs
+
+    c05_entry_programs.run(ctx, ctx.scale(12, 120))
 
     n = ctx.scale(150, 2000)
     budget = ctx.scale(40, 480)
